@@ -142,7 +142,7 @@ def gen_supported(ctx, thorough):
     for i in range(ngauss):
         n = rng.choice([1, 2, 3, 4, 5, 6, 7, 8, 10, 12, 16, 24, 40] if not thorough else list(range(1, 41)) + [80, 120])
         if i % 23 == 22:
-            n = rng.choice([80, 100])       # sparse storage path of Gaussian (dim > MIN_DIM_SPARSE)
+            n = rng.choice([74, 75, 76, 77, 100])       # straddle config.MIN_DIM_SPARSE = 75 (dense / sparse storage)
         wiring = rng.choice(["cov", "prec"])
         reg = rng.random() < 0.25
         fkind = rng.choice(["id", "id", "scaled"] + (["ones"] if wiring == "prec" else []))
@@ -153,18 +153,18 @@ def gen_supported(ctx, thorough):
         if n > 1 and not reg and meank == "vec" and rng.random() < 0.12:
             datak = "len1"
         build = rng.choice(["posterior", "posterior", "joint", "hier"]) if (meank == "vec" and datak == "vec" and not reg) else "posterior"
-        mean = [float(rng.randint(-3, 3)) for _ in range(n)] if meank == "vec" else [float(rng.randint(-2, 2))]
+        mean = [dyadic(rng, -3, 3, 4) for _ in range(n)] if meank == "vec" else [dyadic(rng, -2, 2, 4)]
         if datak == "vec":
             b = [dyadic(rng, -4, 4, 4) if rng.random() < 0.8 else 0.0 for _ in range(n)]
         else:
             b = [dyadic(rng, -4, 4, 4)]
         if i % 17 == 0:
             b = list(mean) if (meank == "vec" and datak == "vec") else b      # zero misfit
+        if i % 29 == 7 and datak == "vec":
+            b = [0.0] * n            # all-zero data (count_nonzero = 0 for the regularised pair)
         name = rng.choice(["s", "d", "delta", "lam"])
         dkind, pkind, scale = representation(rng, i)
-        if dkind == "int":
-            b = [float(round(v)) for v in b]
-            scale = max(scale, 1.0)      # integers stay integers
+        b, scale = fit_to_kind(rng, b, dkind, scale)
         if scale != 1.0:
             b = [v * scale for v in b]; mean = [v * scale for v in mean]
         specs.append({"dkind": dkind, "pkind": pkind, "fam": "gauss", "reg": reg, "wiring": wiring, "n": n, "fkind": fkind, "c": c, "meank": meank,
@@ -187,15 +187,13 @@ def gen_supported(ctx, thorough):
         fkind = rng.choice(["id", "id", "scaled"])
         c = 1 + rng.choice([-8, -5, -3, -1, 1, 2, 4, 7]) * 2.0 ** -20
         meank = rng.choice(["vec", "vec", "zero"])
-        mean = [float(rng.randint(-2, 2)) for _ in range(dim)] if meank == "vec" else [0.0] * dim
+        mean = [dyadic(rng, -2, 2, 4) for _ in range(dim)] if meank == "vec" else [0.0] * dim
         b = [dyadic(rng, -4, 4, 4) if rng.random() < 0.8 else 0.0 for _ in range(dim)]
         if i % 19 == 18:
             b = list(mean)
         name = rng.choice(["d", "s", "delta"])
         dkind, pkind, scale = representation(rng, i)
-        if dkind == "int":
-            b = [float(round(v)) for v in b]
-            scale = max(scale, 1.0)      # integers stay integers
+        b, scale = fit_to_kind(rng, b, dkind, scale)
         if scale != 1.0:
             b = [v * scale for v in b]; mean = [v * scale for v in mean]
         specs.append({"dkind": dkind, "pkind": pkind, "fam": "gmrf", "reg": reg, "order": o, "bc": bc, "pd": pd, "n": n, "fkind": fkind, "c": c,
@@ -205,12 +203,26 @@ def gen_supported(ctx, thorough):
     return specs
 
 
-DKINDS = ["f64", "f64", "int", "list", "f32", "strided", "negstride", "readonly", "cuqiarray", "0d-if-1"]
+DKINDS = ["f64", "int", "list", "f32", "strided", "negstride", "readonly", "cuqiarray", "uint8", "int8", "bool", "f16", "int32", "intlist"]
+NARROW = {"int": np.int64, "int32": np.int32, "uint8": np.uint8, "int8": np.int8, "bool": np.bool_, "f16": np.float16}
+
+
+def fit_to_kind(rng, b, dkind, scale):
+    """make the data values representable in the requested dtype (count-like observations for the integer kinds)"""
+    if dkind in ("int", "int32", "intlist", "int8"):
+        return [float(round(v)) for v in b], (max(scale, 1.0) if dkind in ("int", "intlist") else 1.0)
+    if dkind == "uint8":
+        return [float(abs(round(v))) for v in b], 1.0
+    if dkind == "bool":
+        return [float(rng.random() < 0.5) for _ in b], 1.0
+    if dkind == "f16":
+        return b, 1.0       # quarters in [-4, 4] are exact in float16
+    return b, scale
 
 
 def representation(rng, i):
     """(representation of the data array, of alpha/beta, scale factor) -- same numbers, other dtype / layout / flags"""
-    dkind = DKINDS[i % len(DKINDS)] if i % 3 == 0 else "f64"
+    dkind = DKINDS[(i // 2) % len(DKINDS)] if i % 2 == 0 else "f64"
     pkind = rng.choice(["float", "float", "int", "array1", "npfloat"])
     scale = rng.choice([1.0] * 6 + [2.0 ** -20, 2.0 ** 20, 2.0 ** -10, 2.0 ** 12])
     return dkind, pkind, scale
@@ -218,8 +230,10 @@ def representation(rng, i):
 
 def as_kind(cuqi, vals, kind):
     a = np.array(vals, dtype=float)
-    if kind == "int":
-        return a.astype(np.int64)
+    if kind in NARROW:
+        return a.astype(NARROW[kind])
+    if kind == "intlist":
+        return [int(v) for v in a]
     if kind == "list":
         return [float(v) for v in a]
     if kind == "f32":
@@ -491,7 +505,8 @@ def dependences(rng, thorough):
         ("recip-near", "cov", "1/(1.00000001*{x})", False),
         ("two", "prec", "2*{x}", False), ("square", "prec", "{x}**2", False), ("sqrt", "prec", "np.sqrt({x})", False),
         ("recip", "prec", "1/{x}", False), ("shift", "prec", "{x}+1", False), ("const", "prec", "1.0+0*{x}", False),
-        ("near", "prec", "1.00003*{x}", False), ("cube", "prec", "{x}**3", False), ("half", "prec", "0.5*{x}", False),
+        ("near", "prec", "1.00003*{x}", False), ("tol-in", "prec", "1.0000099*{x}", True), ("tol-out", "prec", "1.0000102*{x}", False),
+        ("tol-in", "cov", "1/(1.0000000009*{x})", True), ("tol-out", "cov", "1/(1.0000000012*{x})", False), ("cube", "prec", "{x}**3", False), ("half", "prec", "0.5*{x}", False),
         ("interp", "prec", "{x}*(1+" + POLY + "/1e6)", False), ("interp", "cov", "1/({x}*(1+" + POLY + "/1e6))", False),
         ("pow1.000001", "prec", "{x}**1.000001", False),
     ]
@@ -579,7 +594,7 @@ def gen_validation(ctx, cuqi, thorough):
         f = mk_lambda(nm, body.format(x=nm))
         # outside the supported structure, unless it is the supported form times a constant (c*s, 1/(c*s): still drawn
         # exactly because c enters through L at s = 1 -- acceptance of those is left to the oracle)
-        scaled = label in ("two", "half", "near", "two-recip", "recip-near") or \
+        scaled = label in ("two", "half", "near", "two-recip", "recip-near", "tol-out") or \
             (label.startswith("pow:") and label.endswith(":p=1" if key == "prec" else ":p=-1"))
         outside = None if (conf or scaled) else "dependence"
         # Gaussian
@@ -1247,6 +1262,7 @@ def stream_direct_histories(ctx, cuqi, thorough):
                     else:
                         smp.reinitialize()
                         expected = []; retained = []
+                smp._ensure_initialized()      # histories without any sampling phase: initialise (draws nothing)
         except Exception as e:
             ctx.disagree(key, desc, out, repr(e)[:120], "history raised")
             ctx.fail(key, desc, "every operation of the history is legal", repr(e)[:120], "Direct raised on a legal history")
@@ -1416,23 +1432,31 @@ def stream_conjugate_histories(ctx, cuqi, built, outs):
 
 # ----------------------------------------------------------------------------- chains of the Conjugate sampler
 def stream_conjugate_chain(ctx, cuqi, thorough):
+    """stored chain = the sequence of Gamma draws, through repeated phases (warmup -> sample -> warmup …, lengths 0, 1, k)"""
     D = cuqi.distribution
     E = cuqi.experimental.mcmc
-    for wiring, f in (("cov", lambda s: 1 / s), ("prec", lambda s: s)):
-        desc = {"chain": "Conjugate.sample", "wiring": wiring}
-        ctx.case("conjugate-chain", desc)
-        key = f"tie:exp:chain:{wiring}"
-        y = D.Gaussian(np.zeros(3), name="y", **{wiring: f})
-        post = D.Posterior(y.to_likelihood(np.array([1.0, 2.0, 0.5])), D.Gamma(1.5, 0.25, name="s"))
-        with Capture(cuqi) as cap, quiet():
-            smp = E.Conjugate(post)
-            smp.warmup(2)
-            smp.sample(3)
-        pts = [scalar(s) for s in smp._samples]
-        vals = [c["value"] for c in cap.calls]
-        if pts != vals or list(smp._acc) != [1] * 6:
-            ctx.disagree(key, desc, vals, pts, "stored chain is not the sequence of Gamma draws")
-            ctx.fail(key, desc, vals, pts, "Conjugate's stored chain is not the sequence of its Gamma draws")
+    rng = ctx.rng
+    for rep_ in range(12 if thorough else 4):
+        for wiring, f in (("cov", lambda s: 1 / s), ("prec", lambda s: s)):
+            phases = [("warmup", 2), ("sample", 3)] if rep_ == 0 else [(rng.choice(["warmup", "sample"]), rng.choice([0, 1, 1, 2, 3])) for _ in range(rng.randint(1, 5))]
+            desc = {"chain": "Conjugate", "wiring": wiring, "phases": phases}
+            ctx.case("conjugate-chain", desc)
+            key = f"tie:exp:chain:{wiring}"
+            y = D.Gaussian(np.zeros(3), name="y", **{wiring: f})
+            post = D.Posterior(y.to_likelihood(np.array([1.0, 2.0, 0.5])), D.Gamma(1.5, 0.25, name="s"))
+            with Capture(cuqi) as cap, quiet():
+                smp = E.Conjugate(post)
+                for ph, k in phases:
+                    (smp.warmup if ph == "warmup" else smp.sample)(k)
+                smp._ensure_initialized()
+            pts = [scalar(s) for s in smp._samples]
+            vals = [c["value"] for c in cap.calls]
+            ntot = sum(k for _, k in phases)
+            same_gamma = all(np.array_equal(c["shape"], cap.calls[0]["shape"]) and np.array_equal(c["scale"], cap.calls[0]["scale"]) for c in cap.calls)
+            if pts != vals or len(pts) != ntot or list(smp._acc) != [1] * (ntot + 1) or not same_gamma:
+                ctx.disagree(key, desc, vals, pts, "stored chain is not the sequence of Gamma draws")
+                ctx.fail(key, desc, {"chain": vals, "length": ntot}, {"chain": pts, "acc": list(smp._acc), "same Gamma every step": same_gamma},
+                         "Conjugate's stored chain is not the sequence of its Gamma draws of one fixed conditional")
 
 
 def run(ctx):
